@@ -2,6 +2,7 @@
    errs exactly when the whole seconds do not fit i64, and never panics. *)
 From JV Require Import Sem Gen.
 From JV.Hand Require Import Sys.
+Require JV.Proofs.Inner.
 Open Scope Z_scope.
 Ltac Zify.zify_post_hook ::= Z.to_euclidean_division_equations.
 
@@ -20,15 +21,7 @@ Proof.
 Qed.
 
 Lemma unix2jdn_no_panic t : in_i64 t -> exists r, unix2jdn t = Ret r.
-Proof.
-  intros H. unfold unix2jdn, SECONDS_IN_DAY, UNIX_EPOCH_JDN.
-  rewrite i64_div_euclid_pos by range. cbn [bind].
-  change (to_i64 2440588) with 2440588.
-  rewrite i64_add_ok by range. cbn [bind].
-  destruct (_ && _).
-  - rewrite i64_rem_euclid_pos by range. cbn [bind]. eexists; reflexivity.
-  - eexists; reflexivity.
-Qed.
+Proof. intros H. rewrite JV.Proofs.Inner.unix2jdn_ok by exact H. eexists; reflexivity. Qed.
 
 Lemma try_from_fits v : v <= i64_max -> i64_try_from_u64 v = Some v.
 Proof. unfold i64_try_from_u64. intros. now replace (v <=? i64_max) with true by lia. Qed.
